@@ -1,10 +1,34 @@
-import Mhd.Model.Nonce
+import Mhd.Model.NonceGen
 import Driver.Common
 open Mhd.Nonce Mhd.Gen.Nonce Driver
 
 structure DSt where
   tbl : Table
   now : Nat
+  /-- `daemon <bind> <rnd>`: the configuration nonce generation reads -/
+  cfg : Option Mhd.Dauth.Cfg := none
+  /-- `rq …`: the request a generated nonce may be bound to -/
+  req : Option Mhd.Dauth.Req := none
+
+def algoOfIdx : Nat → Option Mhd.Dauth.Algo
+  | 0 => some .md5
+  | 1 => some .sha256
+  | 2 => some .sha512
+  | _ => none
+
+/-- "none" or `k[=v],…` (hex) -/
+def parseArgSpec (s : String) : Option (List (List UInt8 × Option (List UInt8))) :=
+  if s == "none" then some [] else
+  (s.splitOn ",").mapM fun tok =>
+    match tok.splitOn "=" with
+    | [k] => (bytesOfHex k).map fun kb => (kb, none)
+    | [k, v] => match bytesOfHex k, bytesOfHex v with
+      | some kb, some vb => some (kb, some vb)
+      | _, _ => none
+    | _ => none
+
+def showGen (t f : String) (g : Mhd.NonceGen.Gen) : String :=
+  (if g.added then t else f) ++ " " ++ hexOfBytes g.nonce
 
 def showOut : Out → String
   | .added => "added"
@@ -128,6 +152,35 @@ def stepLine (s : DSt) (ws : List String) : DSt × List String :=
           let txt : Bytes := if nctxt == "-" then [] else nctxt.toUTF8.toList
           let r := presentTextApi a s.tbl s.now tm m sl n txt
           ({ s with tbl := r.1 }, [showApiOut (a.result r.2)])
+      | _, _, _, _, _, _ => bad s
+  | ["daemon", b, rnd] =>
+      match b.toNat?, bytesOfHex rnd with
+      | some bt, some r =>
+        if bt ≥ 16 then bad s
+        else ({ s with cfg := some ⟨Mhd.Dauth.bindOfOption bt, r, defTimeout, defMaxNc, true⟩ }, ["ok"])
+      | _, _ => bad s
+  | ["rq", m, tok, url, args, addr] =>
+      match m.toNat?, bytesOfHex url, parseArgSpec args, bytesOfHex addr with
+      | some mt, some u, some ar, some ad =>
+        if mt > 1000 ∨ !(ad.length = 0 ∨ ad.length = Mhd.Gen.Dauth.sinSize ∨ ad.length = Mhd.Gen.Dauth.sin6Size) then bad s
+        else ({ s with req := some { method := tok.toUTF8.toList, mthd := mt, url := u, args := ar, hdrs := [], addr := ad } },
+              ["ok"])
+      | _, _, _, _ => bad s
+  | ["gen", algo, ts, realm] =>
+      match algo.toNat?.bind algoOfIdx, ts.toNat?, bytesOfHex realm, s.cfg, s.req with
+      | some a, some t, some rl, some cfg, some rq =>
+        if t ≥ U64 then bad s else
+        match Mhd.NonceGen.calcAddNonce cfg s.tbl rq rl a t with
+        | (_, none) => (s, ["fault"])
+        | (tbl', some g) => ({ s with tbl := tbl' }, [showGen "added" "refused" g])
+      | _, _, _, _, _ => bad s
+  | ["genr", algo, t2, rnd, realm] =>
+      match algo.toNat?.bind algoOfIdx, t2.toNat?, rnd.toNat?, bytesOfHex realm, s.cfg, s.req with
+      | some a, some tt, some rv, some rl, some cfg, some rq =>
+        if tt ≥ U64 ∨ rv > 2147483647 ∨ rl.contains 0 then bad s else
+        match Mhd.NonceGen.calcAddNonceRetry cfg s.tbl rq rl a s.now tt rv with
+        | (_, none) => (s, ["fault"])
+        | (tbl', some g) => ({ s with tbl := tbl' }, [showGen "true" "false" g])
       | _, _, _, _, _, _ => bad s
   | ["state"] =>
       (s, [s!"n={s.tbl.length}" ++ String.join (s.tbl.map fun x => " " ++ showSlot x)])
